@@ -44,6 +44,7 @@ func streamC02(c *Ctx) {
 		"non-trivial = distinct (query, result) with a non-empty result on a twin that has an index"
 	dr := StartDriver(c.DriverBin)
 	defer dr.Close()
+	replayKnownFindings(c, dr)
 	nHist := c.N(60, 1200)
 	dm := Domain{IntsWithin2p53: true, NoNegTimes: true}
 	twins := []string{"t0", "t1", "t2", "t3"}
@@ -282,6 +283,7 @@ func streamC08(c *Ctx) {
 		"answers checked position by position against the tie classes of the specification's ordered sequence; non-trivial = distinct sorted query returning at least 2 documents"
 	dr := StartDriver(c.DriverBin)
 	defer dr.Close()
+	replayKnownFindings(c, dr)
 	nHist := c.N(50, 1000)
 	dm := Domain{IntsWithin2p53: true, NoNegTimes: true}
 	for _, be := range backendsAll {
